@@ -389,7 +389,13 @@ func takePenalty(currentDB *state.StateDB, val *state.Validator, penaltyAmount *
 		obligation.Div(obligation, big.NewInt(int64(params.CommissionRateBase)))
 		currTotal.Sub(currTotal, obligation)
 	}
-	per, rem := new(big.Int).QuoRem(currTotal, val.Stake, new(big.Int))
+	// per-stake share and remainder. A validator whose parts are all below one stake unit has Stake = 0 < Token:
+	// there is no stake to prorate by (QuoRem would panic), the whole amount is remainder and, like every
+	// remainder, is borne by the validator itself.
+	per, rem := new(big.Int), new(big.Int).Set(currTotal)
+	if val.Stake.Sign() != 0 {
+		per.QuoRem(currTotal, val.Stake, rem)
+	}
 	selfPenalty := new(big.Int).Mul(per, val.SelfStake)
 	selfPenalty.Add(selfPenalty, rem)
 	selfPenalty.Add(selfPenalty, obligation)
